@@ -40,12 +40,14 @@ Print Assumptions C13_same_as_fresh_full_build.
 
 (** ---- requests that change between runs (Model/DeltaDecide.v): the list of indexed branches, the index options, the
     shard threshold.  A requested delta build builds delta shards on top of the existing ones EXACTLY when shards exist,
-    their number does not exceed the threshold, and the existing shards record the same list of branch names (same
-    names at the same positions) and the same options hash; otherwise it is a normal build of the requested branches. *)
+    their number does not exceed the threshold, the existing shards record the same list of branch names (same names at
+    the same positions) and the same options hash, and no branch's `.sourcegraph/ignore` file differs from the one of its
+    last indexed commit; otherwise it is a normal build of the requested branches. *)
 Theorem C13_delta_iff_compatible : forall x q,
   builds_delta x q = true <->
   q_kind q = Delta /\ st_stack (x_st x) <> [] /\ q_over q = false /\
-  m_branches (x_meta x) = q_branches q /\ m_opts (x_meta x) = q_opts q.
+  m_branches (x_meta x) = q_branches q /\ m_opts (x_meta x) = q_opts q /\
+  ignore_changed (length (q_branches q)) (st_last (x_st x)) (q_snap q) = false.
 Proof. exact builds_delta_iff. Qed.
 Print Assumptions C13_delta_iff_compatible.
 
@@ -145,19 +147,22 @@ Example C13_nonvacuous :
   view (st_stack st) 1 3%N = [] /\ view (st_stack st) 0 3%N = [6%N].
 Proof. vm_compute. repeat split; reflexivity. Qed.
 
-(** ---- non-vacuity of the decision: six delta requests; the first falls back (no shards), the second is a delta build,
+(** ---- non-vacuity of the decision: seven delta requests; the first falls back (no shards), the second is a delta build,
     the third falls back (branch appended), the fourth is a delta build again, the fifth falls back (options hash), the
-    sixth falls back (more shards than the threshold) — and the view of the last request's branches is the head. *)
+    sixth falls back (more shards than the threshold), the seventh falls back (dev gets an ignore file, path 0) — and the
+    view of the last request's branches is the head. *)
 Example C13_decision_nonvacuous :
   let s1 : snap := [[(1, 7)]]%N in
   let s2 : snap := [[(1, 8)]]%N in
   let s3 : snap := [[(1, 8)]; [(2, 5)]]%N in
   let s4 : snap := [[(1, 9)]; [(2, 5)]]%N in
+  let s5 : snap := [[(1, 9)]; [(0, 4); (2, 5)]]%N in
   let qs := [mkReq s1 Delta [1%N] 0%N false; mkReq s2 Delta [1%N] 0%N false; mkReq s3 Delta [1%N; 2%N] 0%N false;
-             mkReq s4 Delta [1%N; 2%N] 0%N false; mkReq s4 Delta [1%N; 2%N] 3%N false; mkReq s4 Delta [1%N; 2%N] 3%N true] in
+             mkReq s4 Delta [1%N; 2%N] 0%N false; mkReq s4 Delta [1%N; 2%N] 3%N false; mkReq s4 Delta [1%N; 2%N] 3%N true;
+             mkReq s5 Delta [1%N; 2%N] 3%N false] in
   (fix go (x : xstate) (l : list request) : list (option reason) :=
      match l with [] => [] | q :: r => fallback_reason x q :: go (xrun_step x q) r end) xinit qs =
-    [Some NoShards; None; Some BranchList; None; Some IndexOptions; Some OverThreshold] /\
+    [Some NoShards; None; Some BranchList; None; Some IndexOptions; Some OverThreshold; Some IgnoreFile] /\
   length (st_stack (x_st (xrun_all (firstn 4 qs)))) = 2 /\
   view (st_stack (x_st (xrun_all qs))) 0 1%N = [9%N] /\ view (st_stack (x_st (xrun_all qs))) 1 2%N = [5%N].
 Proof. vm_compute. repeat split; reflexivity. Qed.
